@@ -322,13 +322,22 @@ class MultiTypeMap(dict):
         if not results:
             raise self.key_error(obj_t_tup, ())
 
+        def ambiguous(group):
+            def raise_error(*args, **kwargs):
+                raise self.key_error(obj_t_tup, group)
+
+            return raise_error
+
         funcs = []
+        # What the value-dependent methods of a group hand the call to when
+        # none of their conditions holds
+        fallthrough = None
         for group in reversed(results):
             handlers = [c.handler for c in group]
             dependent = any(self.dependent[c.handler] for c in group)
             if dependent:
                 nxt = self.wrap_dependent(
-                    obj_t_tup, handlers, group, funcs[-1] if funcs else None
+                    obj_t_tup, handlers, group, fallthrough
                 )
             elif len(group) != 1:
                 nxt = None
@@ -336,6 +345,9 @@ class MultiTypeMap(dict):
                 nxt = handlers[0]
             codes = [h.__code__ for h in handlers if hasattr(h, "__code__")]
             funcs.append((nxt, codes))
+            # Below an ambiguous group nothing is reachable: the call is
+            # ambiguous, not without a method
+            fallthrough = (nxt or ambiguous(group), codes)
 
         funcs.reverse()
 
